@@ -12,6 +12,7 @@ scs = [prio.gen_prio1_scenario(rng, "quick", fault=(mode == "fault" and rng.rand
 impl = core.run_impl(b, [s.enc for s in scs], tag="devp1", batch_timeout=120)
 model = core.run_model([s.enc for s in scs])
 bad = 0
+amb = 0
 from collections import Counter
 verd = Counter()
 open('/tmp/badprio1.txt', 'w').close()
@@ -25,8 +26,9 @@ for s, ir, mr in zip(scs, impl, model):
     it, mt = prio.Prio1Trace(ir.vals, nops), prio.Prio1Trace(mr, nops)
     allbuf = all(ch < 1000 for _, ch in s.meta['cfg']) and all(o[1] < 1000 for o in s.meta['ops'] if o[0] == 8)
     if not allbuf:
-        it.ops = [o[:6] for o in it.ops]; mt.ops = [o[:6] for o in mt.ops]
-    if any(o[3] >= 2 for o in it.ops + mt.ops):
+        it.ops = [o[:7] for o in it.ops]; mt.ops = [o[:7] for o in mt.ops]
+    if mt.error is None and (mt.ambiguous or any(o[3] >= 2 for o in it.ops + mt.ops)):
+        amb += 1
         continue
     same = it.error == mt.error and it.ops == mt.ops and it.done == mt.done and it.err == mt.err and not it.noterm
     if not same:
@@ -39,4 +41,4 @@ for s, ir, mr in zip(scs, impl, model):
                     print("  first difference at op", i, op, "impl", a, "model", b2)
                     print("  ops so far", s.meta["ops"][:i + 1])
                     break
-print("scenarios", n, "bad", bad, dict(verd))
+print("scenarios", n, "bad", bad, "ambiguous", amb, dict(verd))
